@@ -314,8 +314,14 @@ impl NormalizedDurationRecord {
         self.norm
     }
 
+    /// Equivalent: `InternalDurationSign`
     pub(crate) fn sign(&self) -> TemporalResult<Sign> {
-        Ok(self.date.sign())
+        // The date part decides the sign; the time part only when the date part is zero.
+        let date_sign = self.date.sign();
+        if date_sign != Sign::Zero {
+            return Ok(date_sign);
+        }
+        Ok(self.norm.sign())
     }
 }
 
